@@ -695,6 +695,13 @@ def cases_b06(tier, seed):
         far = "-far" if ("shift_rel" in x and math.hypot(*x["shift_rel"]) > 300) else ""
         out.append(dict(check="B06", tissue=ts, xf=x, kind=kind + far, fit=_fit_for(rng, ts),
                         linear_part=bool("angle" in x or "align" in x or x.get("reflect"))))
+    # dedicated family: curved equilibrium tissues with the iterative (dlite) fit, translated by 1e3 .. 1e4 tissue sizes - the
+    # circle fit works on absolute coordinates, so its accuracy far from the origin is what this family watches
+    for i in range(80 if tier == "quick" else 400):
+        ts = S.small_tissue_spec(rng, [2, 4, 8, 15], moebius=float(rng.choice([0.3, 0.6, 0.9])), subset_p=0.15, vor_subset_p=0.4, vor_n=(25,))
+        mag, a = float(rng.choice([1e3, 3e3, 1e4])), rng.uniform(0, 2 * math.pi)
+        out.append(dict(check="B06", tissue=ts, xf=dict(shift_rel=[float(mag * math.cos(a)), float(mag * math.sin(a))]), kind="translate-far",
+                        fit="dlite", linear_part=False))
     return out
 
 
